@@ -423,6 +423,13 @@ def generate(rng, tier):
         c = gen_history(rng, lo, hi)
         c['fresh'] = 'all' if (tier == 'quick' or k % 2 == 0) else 'none'
         yield c
+    # a few calls per run are also repeated in a genuinely new interpreter (python -c ...), not only in a fork
+    for k in range(4 if tier == 'quick' else 24):
+        c = gen_history(rng, 10, 24)
+        idx = [i for i, st in enumerate(c['steps']) if st['f'] not in ('arr', 'randfn')]
+        c['fresh'] = 'none'
+        c['newinterp'] = sorted(rng.sample(idx, min(3, len(idx))))
+        yield c
     nd = 24 if tier == 'quick' else 150
     for k in range(nd):
         yield gen_poison(rng)
@@ -457,7 +464,7 @@ def gen_confluence(rng):
 
 
 def classify(c):
-    return c.get('directed') or c['op']
+    return c.get('directed') or ('hist+newinterp' if c.get('newinterp') else c['op'])
 
 
 def nontrivial(c):
@@ -1100,9 +1107,14 @@ def run_hist(c):
                     raise RuntimeError('fresh process: ' + fr[1])
                 if not same_outcome(mine, fr):
                     msgs.append('the same call made first in a fresh process gives a different result')
+            if t in c.get('newinterp', ()):
+                fr = new_interpreter_call(s, argdesc, n, 99 + t)
+                if fr[0] == 'harness-error':
+                    raise RuntimeError('new interpreter: ' + fr[1])
+                if not same_outcome(mine, fr):
+                    msgs.append('the same call made first in a new interpreter gives a different result')
         rec['hist'] = msgs
         out_steps.append(rec)
-    # a few calls also in a genuinely new interpreter
     return {'steps': out_steps}
 
 
